@@ -10,13 +10,24 @@ RULE = ("grammar-generated chunked streams (1..6 chunks, sizes 1..5/16/300/5000,
         "zeros, extensions over the allowed alphabet, 0..3 trailer lines incl. lone CR/LF, extra bytes) cut into deliveries "
         "(every 2-way split of short encodings, byte-at-a-time, random k-way with empty deliveries, deliveries after the "
         "end); truncations; byte-level mutations (size digits, ';', extension bytes, the CRLFs); size lines of 1020..1027 "
-        "bytes; partial lines of 1022..1027 bytes; trailer sections of 2^16-4..2^16+4 bytes with the critical cut points; "
-        "identity decoder; _hexint/_decint/toChunk on hostile byte strings. distinct = (op, generator class, reference "
-        "verdict, exception class, delivery-count bucket, features)")
+        "bytes; partial lines (CRLF never arrives) of 1020..1027 bytes, alone / ending in CR / after good chunks / followed by "
+        "a late CRLF, cut at 1023/1024/1025 and byte-at-a-time near the bound; trailer sections of 2^16-4..2^16+4 bytes with "
+        "the critical cut points; identity decoder with Content-Length and with contentLength=None, noMoreData once, twice "
+        "(Content-Length given) and followed by dataReceived; _hexint/_decint/toChunk on hostile byte strings. distinct = "
+        "(op, generator class, reference verdict, exception class, delivery-count bucket, features)")
 ASSUMES = [
     "callbacks return normally (the decoder is not re-entered from dataCallback/finishCallback)",
     "a decoder that raised is dropped (HTTPChannel answers 400 and disconnects): behaviour after a raise is not compared",
-    "documented limits: chunk-size line <= 1023 bytes before its CRLF; trailer fields incl. their CRLFs <= 2**16 bytes",
+    "size-line bound, exactly as http.py enforces it (maxChunkSizeLineLength = 1024; `eolIndex >= 1024 or (eolIndex == -1 "
+    "and len(buffer) > 1024)`): a size line whose CRLF has arrived is accepted iff it is <= 1023 bytes WITHOUT its CRLF "
+    "(CRLF at index <= 1023; 1025 bytes with the CRLF) and refused from 1024 bytes on; while no CRLF has arrived up to 1024 "
+    "bytes are buffered and the 1025th is refused. The round-trip theorems assume lines <= 1023 bytes; both rejections and "
+    "the toleration of <= 1024 CRLF-free bytes are theorems. (The module docstring's 'maximum allowable length of the "
+    "CRLF-terminated line' = 1024 read literally would be 1022 bytes + CRLF; the code and its tests "
+    "test_oversizedChunkSizeLine[Partial] allow one byte more.) Trailer fields incl. their CRLFs <= 2**16 bytes",
+    "_IdentityTransferDecoder with contentLength=None: noMoreData() is called at most once (as HTTPClientParser does); a "
+    "second call finds finishCallback None and raises TypeError in the code - that state (None, callbacks dropped) is the "
+    "only decoder state outside identity_noMoreData_table and is not tied",
 ]
 TRUSTED = ["the reference parser in harness/corr/C22.py (RFC 9112 section 7.1 grammar, written independently of the model)"]
 MANIFEST = {
@@ -24,7 +35,13 @@ MANIFEST = {
             "chunk list, extensions, trailers, extra bytes and every segmentation into deliveries (induction over the "
             "delivery list per stream element, composed over the chunk list): body delivered exactly, finishCallback once "
             "with exactly the extra bytes, _DataLoss on every truncation, malformed size/extension/CRLF rejected under every "
-            "segmentation; model tied to http.py by differential runs on structured streams and splits.",
+            "segmentation; the size-line bound is exact under every segmentation (line of >= 1024 bytes before its CRLF "
+            "refused, 1025 CRLF-free bytes refused whatever follows - rejects_overlong_size_line_no_crlf -, <= 1024 CRLF-free "
+            "bytes waited on - partial_size_line_tolerated); _IdentityTransferDecoder: exact delivery with Content-Length, "
+            "_DataLoss when short, and without Content-Length every byte delivered, noMoreData = finishCallback(b'') once + "
+            "PotentialDataLoss (identity_until_close_exact), noMoreData outcome for every decoder state "
+            "(identity_noMoreData_table, chunked_noMoreData_table); model tied to http.py by differential runs on structured "
+            "streams and splits.",
     "note": "trusts Lean kernel, the hand-written model of the decoder (differentially tied), CPython bytearray.find/int(b,16)",
     "technique": "Lean 4 proof (state-machine invariants, induction over deliveries) + differential tie + reference-parser oracle",
     "design_ref": "DESIGN.md §7 C22",
@@ -57,11 +74,13 @@ def ref_parse(stream, limits=True):
         i = stream.find(CRLF, pos)
         if i < 0:
             if limits and len(stream) - pos > MAXLINE - 1:
-                return {"verdict": "overlimit", "body": body}
+                # "must": more than maxChunkSizeLineLength bytes buffered and still no CRLF (test_oversizedChunkSizeLinePartial)
+                return {"verdict": "overlimit", "body": body, "must": len(stream) - pos > MAXLINE}
             return {"verdict": "incomplete", "body": body}
         line = stream[pos:i]
         if limits and len(line) > MAXLINE - 2:
-            return {"verdict": "overlimit", "body": body}
+            # "must": the CRLF starts at index >= maxChunkSizeLineLength (test_oversizedChunkSizeLine)
+            return {"verdict": "overlimit", "body": body, "must": len(line) >= MAXLINE}
         size, _, ext = line.partition(b";")
         if not re.fullmatch(rb"[0-9A-Fa-f]+", size, re.S):
             return {"verdict": "malformed", "body": body, "why": "size"}
@@ -206,9 +225,19 @@ def _line_limit_cases(rng):
             stream = line + CRLF + b"abc\r\n0\r\n\r\n"
             for pts in ([], [L], [L + 1], [L - 1], [1, L], [1024], [1025], [1023, 1024, 1025]):
                 out.append(_case(_cut(stream, pts), 1, "linelen"))
-        for pts in ([], [1], [L - 1]):          # partial line, CRLF never arrives
+        for pts in ([], [1], [L - 1], [1023], [1024], [1025], [1023, 1024, 1025], list(range(1018, 1030))):
+            # partial line, CRLF never arrives
             out.append(_case(_cut(b"3;" + b"e" * (L - 2), pts), 1, "linelen-partial"))
             out.append(_case(_cut(b"3;" + b"e" * (L - 3) + b"\r", pts), 1, "linelen-partial"))
+            out.append(_case(_cut(b"\r" * L, pts), 1, "linelen-partial"))
+            out.append(_case(_cut(b"\n" + b"z" * (L - 1), pts), 0, "linelen-partial"))
+        head = b"2;x\r\nhi\r\n1\r\n!\r\n"
+        h = len(head)
+        for pts in ([], [h], [h + 1024], [h + 1025], [h - 1, h + 1023], [3, h + L - 1]):
+            # after good chunks; and the CRLF arriving too late / junk after the bound
+            out.append(_case(_cut(head + b"3;" + b"e" * (L - 2), pts), 1, "linelen-partial-after"))
+            out.append(_case(_cut(head + b"3;" + b"e" * (L - 2) + b"\r", pts + [h + L]), 1, "linelen-partial-after"))
+            out.append(_case(_cut(head + b"f" * L + b"\n\r\nabc", pts + [h + L]), 1, "linelen-partial-after"))
     return out
 
 
@@ -255,6 +284,17 @@ def corpus():
     c.append(_case([head + tr + b"\r\n"], 1, "trailerlim"))
     c.append({"op": "identity", "n": 3, "d": [hx(b"ab"), hx(b"cde")], "end": 1, "why": "identity"})
     c.append({"op": "identity", "n": None, "d": [hx(b"ab"), hx(b"cde")], "end": 1, "why": "identity"})
+    c.append({"op": "identity", "n": None, "d": [hx(b"ab"), hx(b""), hx(b"cde")], "end": 3, "why": "identity"})
+    c.append({"op": "identity", "n": None, "d": [], "end": 1, "why": "identity"})
+    c.append({"op": "identity", "n": 0, "d": [], "end": 2, "why": "identity"})
+    c.append({"op": "identity", "n": 3, "d": [hx(b"ab")], "end": 2, "why": "identity"})
+    c.append({"op": "identity", "n": 3, "d": [hx(b"abcd")], "end": 3, "why": "identity"})
+    # the size-line bound without CRLF: 1024 bytes are waited on, the 1025th is refused, in one piece or not
+    c.append(_case([b"3;" + b"e" * 1022], 1, "linelen-partial"))
+    c.append(_case([b"3;" + b"e" * 1023], 1, "linelen-partial"))
+    c.append(_case([b"3;" + b"e" * 1022, b"e"], 1, "linelen-partial"))
+    c.append(_case([b"3;" + b"e" * 1021 + b"\r", b"\n"], 1, "linelen-partial"))
+    c.append(_case([b"3;" + b"e" * 1022 + b"\r", b"\n"], 1, "linelen-partial"))
     c.append({"op": "hexint", "b": hx(b"1F")})
     c.append({"op": "hexint", "b": hx(b"0x1F")})
     c.append({"op": "decint", "b": hx(b" \t12 ")})
@@ -313,7 +353,10 @@ def generate(rng, tier):
         d = _random_split(rng, _payload(rng, total))
         if rng.random() < 0.1:
             d = []
-        yield {"op": "identity", "n": n, "d": [hx(x) for x in d], "end": rng.randint(0, 1), "why": "identity"}
+        end = rng.choice([0, 1, 1, 2, 3])
+        if end == 2 and n is None:
+            end = 3       # a second noMoreData() with contentLength=None is outside the model (TypeError in the code): ASSUMES
+        yield {"op": "identity", "n": n, "d": [hx(x) for x in d], "end": end, "why": "identity"}
     # 7. _hexint / _decint / toChunk
     for _ in range(400 if quick else 6000):
         b = bytes(rng.choice(rng.choice([HEXCH, HEXCH, b"xX+-_ \t\r\ngG\x00", bytes(range(256))]))
@@ -363,6 +406,18 @@ def _drive(dec, data, fin, c):
                 dec.noMoreData()
             except _EXC as e:
                 exc = f"{type(e).__name__}@end"
+        if c["end"] == 2:
+            try:
+                dec.noMoreData()
+                exc += "+-"
+            except _EXC as e:
+                exc += f"+{type(e).__name__}@end2"
+        elif c["end"] == 3:
+            try:
+                dec.dataReceived(b"x")
+                exc += "+-"
+            except _EXC as e:
+                exc += f"+{type(e).__name__}@post"
     return _render(data, fin, exc)
 
 
@@ -420,9 +475,14 @@ def _oracle_chunked(c, out):
     ds, stream, ref, free = _expect_chunked(c)
     v = ref["verdict"]
     if v == "overlimit":
-        # beyond the documented limits the property only forbids wrong output
+        # beyond the documented limits the property only forbids wrong output ...
         if exc == "_MalformedChunkedDataError" and free["body"].startswith(data) and not fin:
             return None
+        # ... except where the code's own bound (and its tests) demand the rejection: a size line of >= 1024 bytes
+        # before its CRLF, or > 1024 bytes buffered in the size-line position with no CRLF (buffering must stay bounded)
+        if ref.get("must"):
+            return {"key": "overlong-accepted", "detail": f"size line over the limit ({len(stream)} bytes in all, deliveries "
+                    f"{[len(d) for d in ds]}) not refused: {exc}@{at}, delivered {len(data)} bytes, fin={fin!r:.40}"}
         ref, v = free, free["verdict"]
     if v == "ok":
         body, end = ref["body"], ref["end"]
@@ -471,15 +531,20 @@ def _oracle_chunked(c, out):
 
 
 def _oracle_identity(c, out):
-    p = _parse_out(out)
-    if p is None:
+    m = re.fullmatch(r"data=(\S+) fin=(\S+) exc=(\S+)", out)
+    if not m:
         return {"key": "escaped-exception", "detail": out}
-    data, fin, exc, at = p
+    data = unhx(m.group(1))
+    fin = [] if m.group(2) == "none" else [unhx(x) for x in m.group(2).split(";")]
+    exc = m.group(3)
     ds = [unhx(x) for x in c["d"]]
     stream = b"".join(ds)
-    n = c["n"]
+    n, end = c["n"], c["end"]
+    raised_in_delivery = None
     if n is None:
-        want = (stream, [b""] if c["end"] else [], "PotentialDataLoss" if c["end"] else None, "end" if c["end"] else None)
+        # body delimited by the end of the connection: every byte delivered; noMoreData = finishCallback(b"") once
+        # and PotentialDataLoss
+        wdata, wfin, first = stream, ([b""] if end else []), ("PotentialDataLoss@end" if end else "-")
     else:
         acc, k = 0, None
         for i, d in enumerate(ds):
@@ -488,14 +553,22 @@ def _oracle_identity(c, out):
                 k = i
                 break
         if k is None:
-            short = n != 0
-            want = (stream, [], "_DataLoss" if c["end"] and short else None, "end" if c["end"] and short else None)
+            wdata, wfin, first = stream, [], ("_DataLoss@end" if end and n != 0 else "-")
         else:
-            later = list(range(k + 1, len(ds)))       # any later call, even empty, finds dataCallback None
-            want = (stream[:n], [stream[n:acc]], "RuntimeError" if later else None, str(later[0]) if later else None)
-    got = (data, fin, exc, at)
+            wdata, wfin, first = stream[:n], [stream[n:acc]], "-"
+            if k + 1 < len(ds):       # any later call, even empty, finds dataCallback None
+                raised_in_delivery = f"RuntimeError@{k + 1}"
+    if raised_in_delivery:
+        wexc = raised_in_delivery
+    elif end == 2:
+        wexc = first + "+" + ("_DataLoss@end2" if first == "_DataLoss@end" else "-")   # same verdict, nothing called again
+    elif end == 3:
+        wexc = first + "+RuntimeError@post"                 # after noMoreData both callbacks are gone
+    else:
+        wexc = first
+    got, want = (data, fin, exc), (wdata, wfin, wexc)
     if got != want:
-        return {"key": "identity", "detail": f"n={n} deliveries={[len(d) for d in ds]} got {got!r:.150} expected {want!r:.150}"}
+        return {"key": "identity", "detail": f"n={n} end={end} deliveries={[len(d) for d in ds]} got {got!r:.150} expected {want!r:.150}"}
     return None
 
 
@@ -538,8 +611,9 @@ def tag(c, out):
             + ("z" if any(not d for d in ds) else "")
         return f"ch:{c.get('why', '')}:{ref['verdict']}:{ref.get('why', '')}:{exc}:{nb}:{feats}"
     if op == "identity":
-        p = _parse_out(out)
-        return f"id:{'none' if c['n'] is None else min(c['n'], 3)}:{p[2] if p else '?'}:{min(len(c['d']), 3)}:{c['end']}"
+        m = re.search(r" exc=(\S+)$", out)
+        ev = re.sub(r"@\d+", "@i", m.group(1)) if m else "?"
+        return f"id:{'none' if c['n'] is None else min(c['n'], 3)}:{ev}:{min(len(c['d']), 3)}:{c['end']}"
     return f"{op}:{'raise' if out.startswith('!') else 'ok'}:{min(len(c['b']) // 2, 4)}"
 
 
